@@ -25,7 +25,7 @@ def accumulate_check(H):
         acc = it.call(H.repo.get(f"{TR}.accumulate.Accumulate"), [K])
         g, gf = sym_gradients(cx, it, K)
         jq = z3.Int("j!q")
-        all_expect = z3.ForAll([jq], z3.Implies(z3.And(0 <= jq, jq < K.length), A.expects_grad(K.get(jq).ref)))
+        all_expect = V.forall([jq], z3.Implies(z3.And(0 <= jq, jq < K.length), A.expects_grad(K.get(jq).ref)))
         n_writes0 = len([e for e in cx.events if e[0] == "grad_write"])
         kind, out = call_catch(lambda: it.call(acc, [g]))
         writes = [e for e in cx.events if e[0] == "grad_write"][n_writes0:]
